@@ -494,10 +494,7 @@ func (g *TransferGen) opTransfer() {
 		p, res = w.NftTransfer(c, signer, class, id, rcpt, dst, relay, "")
 		g.stat("nft.transfer." + ErrClass(res.Codespace, res.Code))
 	}
-	if res.Code != 0 && w.FullDump(c) != before {
-		w.hit("C09", "failed-transfer-changed-state")
-		w.hit("C19", "failed-transfer-changed-state")
-	}
+	g.sendOracle(c, p, res, before)
 	senderAddr := w.Acct(i, signer).String()
 	if g.mt {
 		g.mtAfterTransfer(c, class, id, senderAddr, p)
@@ -650,6 +647,9 @@ func (g *TransferGen) Run(nOps int) {
 	if g.script == 1 {
 		g.RunPortEdit()
 	}
+	if g.relay {
+		g.RunRelayUnknownDest()
+	}
 }
 
 var _ = sdk.AccAddress{}
@@ -771,17 +771,34 @@ func (g *TransferGen) track(p *packettypes.Packet, on string) *tpkt {
 // nftXfer = MsgNftTransfer + ledger bookkeeping
 func (g *TransferGen) nftXfer(i, signer int, class, id, rcpt, dst, relay string) *tpkt {
 	c := g.chain(i)
+	before := g.w.FullDump(c)
 	p, res := g.w.NftTransfer(c, signer, class, id, rcpt, dst, relay, "")
 	g.stat("script.transfer." + ErrClass(res.Codespace, res.Code))
+	g.sendOracle(c, p, res, before)
 	g.nftAfterTransfer(c, class, id, g.w.Acct(i, signer).String(), p)
 	return g.track(p, c.ChainName)
+}
+
+// sendOracle: a transfer message is all-or-nothing — refused and nothing changed, or accepted
+// and exactly one packet sent (send_packet event; the packet stream checks the commitment)
+func (g *TransferGen) sendOracle(c *tibctesting.TestChain, p *packettypes.Packet, res *abci.ExecTxResult, before string) {
+	if res.Code != 0 && g.w.FullDump(c) != before {
+		g.w.hit("C09", "failed-transfer-changed-state")
+		g.w.hit("C19", "failed-transfer-changed-state")
+	}
+	if res.Code == 0 && p == nil {
+		g.w.hit("C09", "transfer-accepted-but-no-packet-was-sent")
+		g.w.hit("C19", "transfer-accepted-but-no-packet-was-sent")
+	}
 }
 
 // mtXfer = MsgMtTransfer + ledger bookkeeping
 func (g *TransferGen) mtXfer(i, signer int, class, id, rcpt, dst, relay string, amount uint64) *tpkt {
 	c := g.chain(i)
+	before := g.w.FullDump(c)
 	p, res := g.w.MtTransfer(c, signer, class, id, rcpt, dst, relay, "", amount)
 	g.stat("script.mttransfer." + ErrClass(res.Codespace, res.Code))
+	g.sendOracle(c, p, res, before)
 	g.mtAfterTransfer(c, class, id, g.w.Acct(i, signer).String(), p)
 	return g.track(p, c.ChainName)
 }
@@ -814,6 +831,11 @@ func (g *TransferGen) RunMtRefunds() {
 	for _, cl := range g.mtClasses(b) {
 		had[cl] = true
 	}
+	// sends the packet layer refuses (no light client of the destination / of the relay chain):
+	// nothing may be locked
+	g.mtXfer(a, 1, class, id, w.Acct(b, 1).String(), "unknownchain9", "", 1)
+	g.mtXfer(a, 1, class, id, w.Acct(b, 1).String(), B.ChainName, "unknownchain9", 1)
+	g.tokenOracles()
 	k1 := amt - 2
 	t1 := g.mtXfer(a, 1, class, id, w.Acct(b, 1).String(), B.ChainName, "", k1)
 	if t1 == nil || !g.deliver(t1) {
@@ -917,6 +939,51 @@ func (g *TransferGen) RunRelayEdit() {
 	ps = ProofSpec{Kind: "honest", Chain: B.ChainName, Height: h, Key: "ack", Src: p.SourceChain, Dst: p.DestinationChain, Seq: p.Sequence}
 	res = g.ackWithOracles(A, 0, p2, t.tok, ackB, ps, h, true)
 	g.stat("relayedit.ack-on-source." + ErrClass(res.Codespace, res.Code))
+	g.tokenOracles()
+}
+
+// RunRelayUnknownDest: a transfer through a relay chain whose rules admit it but which has no
+// light client of the destination. The relay chain must answer with an error acknowledgement
+// (not abort), and the sender must be refunded when it comes back.
+func (g *TransferGen) RunRelayUnknownDest() {
+	w := g.w
+	if len(w.Chains) < 3 || !g.relay {
+		return
+	}
+	a, r := 0, 1
+	A, R := g.chain(a), g.chain(r)
+	if w.SetRules(R, []string{"*,*,*"}) != nil {
+		return
+	}
+	var t *tpkt
+	if g.mt {
+		class := w.MtIssue(A, 0)
+		if class == "" {
+			return
+		}
+		id, res := w.MtMint(A, 0, class, "", 6, w.Acct(a, 1).String())
+		g.mtAfterMint(A, class, id, 6, res)
+		if res.Code != 0 {
+			return
+		}
+		t = g.mtXfer(a, 1, class, id, w.Acct(2, 1).String(), "unknownchain9", R.ChainName, 2)
+	} else {
+		class, id := "nowhere", "tok1"
+		if w.NftIssue(A, 0, class, false).Code != 0 {
+			return
+		}
+		g.nftAfterMint(A, class, id, w.NftMint(A, 0, class, id, "uri", w.Acct(a, 1).String()))
+		t = g.nftXfer(a, 1, class, id, w.Acct(2, 1).String(), "unknownchain9", R.ChainName)
+	}
+	if t == nil {
+		return
+	}
+	g.deliver(t)
+	if t.ack == nil {
+		w.hit("C11", "relay-chain-recorded-no-acknowledgement-for-a-packet-to-a-destination-it-does-not-know "+fkey(t.p))
+	} else {
+		g.stat("script.relay-unknown-dest." + strings.SplitN(w.AckTok(t.ack), "|", 2)[0])
+	}
 	g.tokenOracles()
 }
 
